@@ -7,6 +7,8 @@ import (
 	"go/types"
 	"strings"
 
+	"golang.org/x/tools/go/cfg"
+
 	"verif/checker/core"
 )
 
@@ -475,4 +477,187 @@ func c15r5(rc *core.RC) {
 		}
 	}
 	rc.Check(initOK, "decoder.largeToSmallTable/init", token.NoPos, "the table is filled for all 256 bytes, shifting exactly 'A'..'Z' by 'a'-'A'")
+}
+
+// ---- C15.R6 the bitmap row index stays inside the bitmap ----
+
+// The bitmap has maxKeyLen+1 rows and the last row is all zero, so reading row
+// keyIdx is safe as long as the accumulated bit set is tested for zero (with an
+// exit) between any two row reads: after maxKeyLen matching characters the
+// extra row clears every bit. A path with two row reads and no test in between
+// can step past the last row (index out of range panic).
+func c15r6(rc *core.RC) {
+	p := rc.P
+	for _, name := range bitmapDecoders {
+		fd := p.Func("decoder", name)
+		if fd == nil {
+			rc.Unknown("decoder."+name, token.NoPos, "bitmap key decoder not found")
+			continue
+		}
+		rc.Touch("decoder." + name)
+		info := p.Info(fd)
+		cf := core.BuildCFGFor(fd, info)
+		_, cols := rowIndexVars(info, fd)
+		// the accumulator: x &= bitmap[row][col]
+		var acc types.Object
+		ast.Inspect(fd.Body, func(n ast.Node) bool {
+			if as, ok := n.(*ast.AssignStmt); ok && as.Tok == token.AND_ASSIGN && len(as.Lhs) == 1 {
+				for _, c := range cols {
+					if as.Rhs[0] == ast.Expr(c) || (c.Pos() >= as.Rhs[0].Pos() && c.End() <= as.Rhs[0].End()) {
+						acc = core.ObjOf(info, as.Lhs[0])
+					}
+				}
+			}
+			return true
+		})
+		if acc == nil || len(cols) == 0 {
+			rc.Unknown("decoder."+name+"/row-reads", fd.Pos(), "bitmap row reads or the accumulated bit set not recognised")
+			continue
+		}
+		isAccess := func(n ast.Node) bool {
+			for _, c := range cols {
+				if n.Pos() <= c.Pos() && c.End() <= n.End() {
+					return true
+				}
+			}
+			return false
+		}
+		// zero test: cond `acc == 0` whose true branch always exits
+		isZeroTest := func(b *cfg.Block) bool {
+			if len(b.Succs) != 2 || len(b.Nodes) == 0 {
+				return false
+			}
+			cond, ok := b.Nodes[len(b.Nodes)-1].(ast.Expr)
+			if !ok {
+				return false
+			}
+			be, ok := core.Unparen(cond).(*ast.BinaryExpr)
+			if !ok || be.Op != token.EQL || core.ObjOf(info, be.X) != acc {
+				return false
+			}
+			if v, ok := core.ConstInt(info, be.Y); !ok || v != 0 {
+				return false
+			}
+			// the true branch leaves the function
+			for blk := range cf.ReachableFrom(b.Succs[0], map[*cfg.Block]bool{b.Succs[1]: true}) {
+				for _, nd := range blk.Nodes {
+					if isAccess(nd) {
+						return false
+					}
+				}
+			}
+			return true
+		}
+		idx := 0
+		for _, blk := range cf.G.Blocks {
+			if !cf.Reachable(blk) {
+				continue
+			}
+			for i, nd := range blk.Nodes {
+				if !isAccess(nd) {
+					continue
+				}
+				idx++
+				key := fmt.Sprintf("decoder.%s/row-read %d/zero-test-before-next-read", name, idx)
+				// explore forward from just after this node
+				var offender ast.Node
+				seen := map[*cfg.Block]bool{}
+				var walk func(b *cfg.Block, from int)
+				walk = func(b *cfg.Block, from int) {
+					if offender != nil {
+						return
+					}
+					for j := from; j < len(b.Nodes); j++ {
+						if j == len(b.Nodes)-1 && isZeroTest(b) {
+							return // tested: the false edge continues safely, the true edge exits
+						}
+						if isAccess(b.Nodes[j]) {
+							offender = b.Nodes[j]
+							return
+						}
+					}
+					for _, s := range b.Succs {
+						if !seen[s] {
+							seen[s] = true
+							walk(s, 0)
+						}
+					}
+				}
+				walk(blk, i+1)
+				if offender == nil {
+					rc.OK(key, nd.Pos(), "every path to the next row read passes `%s == 0` with an exit", acc.Name())
+				} else {
+					rc.Bad(key, nd.Pos(), "there is a path from this bitmap row read to the next one (%s) without the `%s == 0` exit in between: the row counter can run past the extra all-zero row and index out of range", p.Pos(offender.Pos()), acc.Name())
+				}
+			}
+		}
+	}
+}
+
+// ---- C15.R7 colliding names disable the bitmap unless they are the same field set ----
+
+func c15r7(rc *core.RC) {
+	p := rc.P
+	fd := p.Func("decoder", "structDecoder.tryOptimize")
+	if fd == nil {
+		rc.Unknown("decoder.structDecoder.tryOptimize", token.NoPos, "optimiser not found")
+		return
+	}
+	info := p.Info(fd)
+	found := 0
+	ast.Inspect(fd.Body, func(n ast.Node) bool {
+		ifs, ok := n.(*ast.IfStmt)
+		if !ok || ifs.Init == nil {
+			return true
+		}
+		as, ok := ifs.Init.(*ast.AssignStmt)
+		if !ok || len(as.Lhs) != 2 || len(as.Rhs) != 1 {
+			return true
+		}
+		ix, ok := core.Unparen(as.Rhs[0]).(*ast.IndexExpr)
+		if !ok {
+			return true
+		}
+		mt, ok := info.Types[ix.X].Type.Underlying().(*types.Map)
+		if !ok || !strings.HasSuffix(mt.Elem().String(), "decoder.structFieldSet") {
+			return true
+		}
+		prev := core.ObjOf(info, as.Lhs[0])
+		// the lookup key must be the lower-cased name; the guarded comparison is the first statement of the body
+		inner, ok := firstIf(ifs.Body)
+		if !ok {
+			return true
+		}
+		found++
+		key := "decoder.structDecoder.tryOptimize/name-collision-guard"
+		be, ok := core.Unparen(inner.Cond).(*ast.BinaryExpr)
+		ptrs := false
+		if ok && be.Op == token.NEQ {
+			tx, ty := info.Types[be.X].Type, info.Types[be.Y].Type
+			_, px := tx.(*types.Pointer)
+			_, py := ty.(*types.Pointer)
+			ptrs = px && py && (core.ObjOf(info, be.X) == prev || core.ObjOf(info, be.Y) == prev)
+		}
+		exits := len(inner.Body.List) > 0
+		if exits {
+			_, exits = inner.Body.List[len(inner.Body.List)-1].(*ast.ReturnStmt)
+		}
+		if ptrs && exits {
+			rc.OK(key, inner.Pos(), "two names with the same lower-case spelling keep the bitmap only if they are the very same field set (pointer identity), otherwise the optimisation is refused")
+		} else {
+			rc.Bad(key, inner.Pos(), "when a lower-cased name is already registered the optimisation must be refused unless both entries are the same *structFieldSet; the guard is `%s`, which is not a pointer-identity test: two different fields whose names differ only in case can share one bitmap entry, so one of them can never be selected", core.Src(p.Fset, inner.Cond))
+		}
+		return true
+	})
+	if found == 0 {
+		rc.Unknown("decoder.structDecoder.tryOptimize/name-collision-guard", fd.Pos(), "no comma-ok lookup of an already registered lower-cased name found")
+	}
+}
+
+func firstIf(b *ast.BlockStmt) (*ast.IfStmt, bool) {
+	if len(b.List) == 0 {
+		return nil, false
+	}
+	i, ok := b.List[0].(*ast.IfStmt)
+	return i, ok
 }
